@@ -27,11 +27,12 @@ def entry(c, f, allocs, upd="", exp="f1", name="n1", meta=None, mode="rec"):
             "orig": ["o1"], "ua": [], "upd": upd, "ref": ""}
 
 
-def world(n, followers=(), norepin=False, bad=()):
+def world(n, followers=(), norepin=False, bad=(), nonnum=()):
     vals = ["v0", "v1", "v2", "v1", "v0", "v2", "v0", "v1"]
     peers = ["p%d" % i for i in range(1, n + 1)]
     return {"peers": peers, "followers": list(followers), "norepin": norepin, "strat": "asc",
-            "ms": dict((p, "bad" if p in bad else vals[i]) for i, p in enumerate(peers)), "blocks": BLOCKS}
+            "ms": dict((p, "bad" if p in bad else ("nonnum" if p in nonnum else vals[i])) for i, p in enumerate(peers)),
+            "blocks": BLOCKS}
 
 
 def directed():
@@ -46,6 +47,14 @@ def directed():
                   entry("c3", (2, 2), ["p1", "p3"], exp="none", meta=[])]  # falls below
             ep = {"kind": kind, "failed": "p1", "at": "p2" if kind == "remove" else ""}
             out.append({"src": "directed", "w": world(n, bad=("p1",) if kind == "fail" else ()), "ep": ep, "ps0": ps})
+    # survivors with valid but unrankable (non-numeric) metrics: below-min pins that cannot reach their minimum with
+    # rankable peers must stay untouched (never committed empty or below min); with one rankable survivor they move there
+    for n, nn in ((3, ("p2", "p3")), (4, ("p2", "p3", "p4")), (4, ("p2", "p3")), (5, ("p3", "p4", "p5"))):
+        for kind in ("fail", "remove"):
+            ps = [entry("c1", (1, 1), ["p1"]), entry("c2", (2, 2), ["p1", "p2"]), entry("c3", (2, 3), ["p2", "p1"], exp="none"),
+                  entry("c4", (1, 2), ["p1", "p3"])]
+            ep = {"kind": kind, "failed": "p1", "at": "p2" if kind == "remove" else ""}
+            out.append({"src": "directed", "w": world(n, bad=("p1",) if kind == "fail" else (), nonnum=nn), "ep": ep, "ps0": ps})
     # repinning disabled / follower closest / non-ping alert: nothing may change
     ps = [entry("c1", (1, 1), ["p1"]), entry("c2", (2, 2), ["p1", "p2"])]
     out.append({"src": "directed", "w": world(3, norepin=True, bad=("p1",)), "ep": {"kind": "fail", "failed": "p1", "at": ""}, "ps0": ps})
@@ -122,7 +131,9 @@ def run(ctx):
         "StateSync removes it)",
         "the closest-peer order is the real blake2b XOR order of the concrete peer IDs and CIDs (seeded); the model check "
         "covers rotations of the peer order per CID",
-        "metric states: healthy with one of three numeric values, or absent; allocation details are C03's",
+        "metric states of every member: one of three numeric values, valid but non-numeric (unrankable), or none "
+        "(absent / invalid / expired are one class: the real monitor filters them, the scripted one returns nothing); "
+        "allocation details are C03's",
     ]
     cfg = "ClusterAPIRepinMC_quick.cfg" if ctx.quick() else "ClusterAPIRepinMC_thorough.cfg"
     if os.environ.get("VERIF_DEV_SKIP_MC"):
